@@ -74,7 +74,7 @@ def build(inst):
     v, dt, dt0 = sym.scalar(var("v")), sym.scalar(var("dt")), sym.scalar(var("dt0"))
     init, it1, _ = interp.encode(lambda s, v_, p, d0: m.init_state(s, v_, p, d0), (S0, v, P, dt0), return_interp=True)
     init = {k: sym.to_obj(x) for k, x in init.items()}
-    S1 = dict(S0); S1.update(init)
+    S1 = dict(S0); S1.update({k: x for k, x in init.items() if k in S0})     # foreign keys are reported by run_fixed_point
     new, it2, _ = interp.encode(lambda s, dt_, v_, p: m.update_states(s, dt_, v_, p), (S1, dt, v, P), return_interp=True)
     return m, skeys, pkeys, init, {k: sym.to_obj(x) for k, x in new.items()}, [it1, it2]
 
@@ -103,6 +103,22 @@ def run_fixed_point(inst):
            "functions": sorted(set().union(*[i.functions for i in its])), "prims": {}}
     for i in its:
         for k, n in i.prims.items(): res["prims"][k] = res["prims"].get(k, 0) + n
+
+    # init_state must return exactly the channel's own states (under their current, possibly renamed, names)
+    if set(init) != set(skeys):
+        import jax.numpy as jnp
+        real = m.init_state({k: jnp.asarray(0.3) for k in skeys}, jnp.asarray(-65.0), {k: jnp.asarray(float(v_)) for k, v_ in m.channel_params.items()}, 0.025)
+        if set(real) != set(skeys):
+            res["violations"].append({"signature": {"query": "init_state_keys", "mech": inst["mech"], "renamed": bool(inst["rename"])},
+                                      "what": f"{m._name}.init_state returns the states {sorted(real)} but the channel's states are {sorted(skeys)}: init_states() leaves {sorted(set(skeys) - set(real))} untouched and writes {sorted(set(real) - set(skeys))}",
+                                      "replay": {"inst": inst, "query": "init_state_keys"}})
+        else:
+            res.setdefault("errors", []).append({"instance": inst, "error": "traced init_state keys differ from the concrete call"})
+        init = {k: init[k] for k in skeys if k in init}
+        if not init:
+            res["stats"] = dict(smt.STATS); res["sample"] = {"instance": inst}
+            return res
+        skeys = [k for k in skeys if k in init]
 
     def newq(label):
         q = smt.Query(f"C14/{inst['mech']}{'/renamed' if inst['rename'] else ''}/{label}")
